@@ -349,6 +349,7 @@ static struct {
 	size_t lastcap0;
 } RS;
 static struct { int ref0, mu0; } IS;
+static int key_live;
 
 static void rs_begin(void)
 {
@@ -415,7 +416,15 @@ static void is_end(void)
 {
 	int d = urcu_bp_refcount - IS.ref0;
 	if (d == 1) { printf("libinit\n"); hist[H_LIBINIT]++; }
-	else if (d == -1) { printf("libexit %d\n", n_munmap != IS.mu0); hist[n_munmap != IS.mu0 ? H_LIBEXIT_FREE : H_LIBEXIT]++; }
+	else if (d == -1) {
+		/* flag: the last reference went away (every chunk unmapped, chunk list re-initialised, key deleted) */
+		int last = urcu_bp_refcount == 0;
+		if (last && (!cds_list_empty(&registry_arena.chunk_list) || key_live))
+			oracle("exit", "last reference dropped but chunk list / key still there");
+		if (!last && n_munmap != IS.mu0) oracle("moved", "chunks unmapped while urcu_bp_refcount=%d", urcu_bp_refcount);
+		printf("libexit %d\n", last);
+		hist[last ? H_LIBEXIT_FREE : H_LIBEXIT]++;
+	}
 	else if (d) oracle("exit", "urcu_bp_refcount changed by %d in one init_lock section", d);
 	else return;
 	print_state();
@@ -534,7 +543,6 @@ static void h_destructor(void *v)
 	if (URCU_TLS(urcu_bp_reader) != tlsp[t]) oracle("exit", "thread %d: TLS reader pointer and registration state disagree after the exit notifier", t);
 }
 
-static int key_live;
 static int h_key_create(pthread_key_t *k, void (*d)(void *))
 {
 	if (h_started && key_live) oracle("exit", "pthread_key_create while the key exists");
@@ -820,18 +828,21 @@ static void install_handler(void)
 static int run_random(unsigned long seed, int nops)
 {
 	static const int targets[] = { 0, 3, 8, 9, 16, 17, 24, 33, 40, 65, 70, 129, 140 };
-	int n, target, extra_ref = 1, t;
+	int n, target, extra_ref = 1, t, hold = 0;
 	rng_s = seed * 0x9E3779B97F4A7C15ULL + 0x1234567;
 	for (n = 0; n < 5; n++) rnd();
 	grow_bias = rnd() % 4; if (grow_bias == 3) grow_bias = 2;
 	target = targets[rnd() % 13];
+	/* every fourth seed first climbs to the largest population (beyond 128 simulated / 64 real threads) */
+	if (seed % 4 == 0) { target = h_mode == THR ? 70 : 140; hold = 1; }
 	printf("# seed %lu mode %s grow_bias %d INIT_READER_COUNT %d\n", seed, h_mode == SIM ? "sim" : "thr", grow_bias, INIT_READER_COUNT);
 	printf("init %d\n", urcu_bp_refcount);
 	print_state();
 	for (n = 0; n < nops; n++) {
 		unsigned r = rnd() % 100;
 		int live = nlive();
-		if (rnd() % 30 == 0) {
+		if (hold && live >= target) hold = 0;
+		if (!hold && rnd() % 30 == 0) {
 			/* new episode: population target (0 = drain completely so that the chunks get unmapped) and growth mode */
 			target = (rnd() % 3 == 0) ? 0 : targets[rnd() % 13];
 			grow_bias = rnd() % 4; if (grow_bias == 3) grow_bias = 2;
